@@ -4,6 +4,7 @@ import Prism.Model.Jpeg
 import Prism.Model.Webp
 import Prism.Model.Icc
 import Prism.Model.Reader
+import Prism.Model.Auto
 
 /-! Driver operations for the byte-side models (pure interpretation). -/
 
@@ -125,7 +126,9 @@ def errStr : Option IOErr → String
 def loadxRun (f : String) (ee : String) (ewd : String) (sched : String) (data : List UInt8)
     (tbl : List (List UInt8 × Except String (List UInt8))) : String :=
   let src : Src := { rest := data, sched := parseSched sched, endErr := endErrOf ee, eofWithData := ewd == "1" }
-  let (a, rd, pr) := loadStack (oracleInflate tbl) f (data.length + 16) (.src src)
+  let (a0, rd0, pr) := loadStack (oracleInflate tbl) f (data.length + 16) (.src src)
+  -- the result and the returned stream come from the definitions the theorems are about
+  let (a, rd) := if f == "auto" then Auto.load (oracleInflate tbl) (data.length + 16) (.src src) else (a0, rd0)
   -- what the caller sees when it reads the returned stream to the end (512-byte requests)
   let (bytes, e, _) := rd.drain (data.length + 8) 512 []
   let pulled := if pr.lo == pr.hi then s!"{pr.lo}" else s!"[{pr.lo}..{pr.hi}]"
